@@ -207,6 +207,13 @@ Theorem c08_rtmp_read_partial hs ms s b t : flat s = (b, t) ->
   (n, match e with Some x => x | None => 1000 end).
 Proof. exact (rtmp_read_session_spec hs ms s b t). Qed.
 
+(* plan_outcome is computed directly from the plan (cumulative sizes), and for long wires the
+   correspondence run uses exactly that instead of simulating the transport for every cut offset;
+   it is the session's result for every segmentation the harness can ask for: *)
+Theorem c08_rtmp_read_outcome_is_session hs ms k t sizes tog :
+  rtmp_read_session hs ms (mk_stream (repeat 0 (N.to_nat k)) sizes t tog) = rtmp_read_outcome hs ms k t.
+Proof. exact (rtmp_read_outcome_ok hs ms k t sizes tog). Qed.
+
 (* ... where plan_outcome satisfies the statement of C08 for any plan:
    exactly the items that end within the first a bytes are returned; the next one fails with the
    terminal error t, or with ErrUnexpectedEOF when t = EOF ... *)
@@ -472,6 +479,7 @@ Print Assumptions c08_flv_read.
 Print Assumptions c08_flv_read_any_reader.
 Print Assumptions c08_flv_write.
 Print Assumptions c08_rtmp_read_partial.
+Print Assumptions c08_rtmp_read_outcome_is_session.
 Print Assumptions c08_plan_items.
 Print Assumptions c08_plan_boundary.
 Print Assumptions c08_plan_inside.
